@@ -118,7 +118,10 @@ where
                     match si.poll_ready_unpin(cx) {
                         Poll::Ready(Ok(_)) => {
                             if si.start_send_unpin(Frame::Error(err)).is_ok() {
+                                // Close it before doing anything else, in particular before another
+                                // late replier can take over this slot
                                 *buffered_err = Some((None, si));
+                                continue;
                             }
                         }
                         Poll::Ready(Err(e)) => warn!("Could not poll replier sink: {e:?}"),
@@ -140,25 +143,33 @@ where
             }
 
             match handle.as_mut().poll_next(cx) {
-                Poll::Ready(Some(sock)) => match sock {
-                    Socket::Client((si, st)) => {
-                        stream.as_mut().insert(*next_id, st);
-                        sink.as_mut().insert(*next_id, si);
+                Poll::Ready(Some(sock)) => {
+                    match sock {
+                        Socket::Client((si, st)) => {
+                            stream.as_mut().insert(*next_id, st);
+                            sink.as_mut().insert(*next_id, si);
 
-                        *next_id += 1;
-                    }
-                    Socket::Server((si, st)) => {
-                        if server.is_some() {
-                            let error_payload = ErrorPayload {
-                                code: REPLIER_ALREADY_BOUND,
-                                message: "A replier already exists for this topic".into(),
-                            };
-                            *buffered_err = Some((Some(error_payload), si));
-                        } else {
-                            let _ = server.insert((si, st));
+                            *next_id += 1;
+                        }
+                        Socket::Server((si, st)) => {
+                            if server.is_some() {
+                                let error_payload = ErrorPayload {
+                                    code: REPLIER_ALREADY_BOUND,
+                                    message: "A replier already exists for this topic".into(),
+                                };
+                                *buffered_err = Some((Some(error_payload), si));
+                            } else {
+                                let _ = server.insert((si, st));
+                            }
                         }
                     }
-                },
+
+                    // Go round again: a rejection is dealt with (and its sink polled) straight away, and
+                    // the channel keeps being drained until it reports Pending and so holds our waker.
+                    // Otherwise a socket or the shutdown signal queued behind this one would go unnoticed
+                    // until some unrelated peer woke the router.
+                    continue;
+                }
                 // If handle is terminated, the stream is dead
                 Poll::Ready(None) => {
                     ready!(sink.as_mut().poll_flush(cx)).unwrap();
